@@ -288,6 +288,16 @@ theorem blocklist_before_cache_and_upstream :
       h ∈ SdnsVerif.Gen.C18.chain_order := by
   decide
 
+
+/-- Fact regenerated from the tree: the blocklist does NOT declare itself
+`ClientOnly`, so `autoWire` keeps it in the internal and prefetch sub-pipelines —
+a blocked name asked as an internal sub-query (the cache chasing a CNAME target,
+a prefetch refresh, the resolver looking up an NS address) gets the same
+`serveDNS` decision as a client query (the `bl iserve` op drives exactly that
+route through the real `middleware.Setup`). -/
+theorem blocklist_guards_internal_queries : SdnsVerif.Gen.C18.blocklist_client_only = false := by
+  decide
+
 /-! ## 3. Persistence
 
 One `Step` is one critical section under `mu` (`mutate`), or one file-system
